@@ -20,7 +20,7 @@ RULE = ("random histories (<=14 operations) of print (styled Text with <, >, &, 
 ASSUMPTIONS = ["OSC-8 link ids (time+random per Style instance) are normalised before comparing streams",
                "get_datetime is injected so that log timestamps are equal on the twin consoles",
                "visible text = file with SGR/OSC-8 sequences and control functions removed by rv/model/sgr.py"]
-REQUIRED = ["mon.export_text", "mon.export_html", "mon.export_styled", "mon.capture_twin", "mon.clear_semantics"]
+REQUIRED = ["mon.huge_output", "mon.export_text", "mon.export_html", "mon.export_styled", "mon.capture_twin", "mon.clear_semantics"]
 MIN_NONTRIVIAL = {"quick": 1500, "thorough": 100000}
 
 _ID = re.compile(r"\x1b\]8;id=[^;]*;")
@@ -46,6 +46,11 @@ def rand_printable(rng):
     """A spec for something to print: (kind, payload) - rebuilt fresh for every console."""
     r = rng.random()
     w = S.pick_weights(rng)
+    if rng.random() < 0.003:
+        # one print whose output is far larger than any buffer or block size a writer might use
+        # (kept as a compact spec so that witnesses stay small)
+        return ("huge", {"chars": rng.choice([5000, 20000, 33000, 70000, 140000]), "line": rng.choice([7, 60, 300, 5000]),
+                         "wide": rng.random() < 0.3})
     if r < 0.45:
         s = S.free_string(rng, rng.choice([3, 10, 30, 70]), w, space=0.15, newline=0.03, min_len=1)
         if rng.random() < 0.4:
@@ -82,6 +87,12 @@ def build_printable(p):
         return t
     if kind in ("markup", "plain"):
         return payload
+    if kind == "huge":
+        from rich.text import Text
+        n, line = payload["chars"], payload["line"]
+        alphabet = "漢字ｆｕ" if payload["wide"] else "abcdefghijklmnopqrstuvwxyz"
+        body = "\n".join("%06d %s" % (i, (alphabet * (line // len(alphabet) + 1))[:line]) for i in range(n // (line + 8) + 1))
+        return Text(body, style="bold" if payload["wide"] else "")
     if kind == "panel":
         from rich.panel import Panel
         return Panel(payload["s"], title=payload["title"])
@@ -308,6 +319,9 @@ def wl_histories(ctx, rng, case_no):
                 ctx.violation("twin-consoles-diverged(harness)", wit)
                 return
         ctx.hist("ops", k)
+        if k in ("print", "log") and op[1][0] == "huge":
+            ctx.count("mon.huge_output")
+            ctx.hist("huge_output_chars", op[1][1]["chars"])
     ctx.case_done(("h", repr(log), repr(cfg)), len(ops) >= 4 and exports >= 1, {"config": cfg, "log": log})
 
 
